@@ -135,6 +135,8 @@ def _run_check(prop, tier, seed, replay, workers, t_start, scratch):
         spec["exhaustive"] = False
         spec["bound"] = f"(DEV STRIDE {stride}) " + spec.get("bound", "")
     budget = float(os.environ.get("VERIF_BUDGET_S", spec.get("budget_s", 0)) or 0)
+    if not budget and tier == "thorough":
+        budget = 3 * 3600.0  # a thorough run that hits this is reported as capped, never as exhaustive
     nwork = workers or int(os.environ.get("VERIF_WORKERS", "16"))
     nwork = max(1, min(nwork, len(cases)))
     serial = getattr(mod, "SERIAL", False) or nwork == 1
